@@ -4,7 +4,7 @@
 From Coq Require Import Reals Lra Lia ZArith List Bool Arith Psatz.
 From Coquelicot Require Import Coquelicot.
 Import ListNotations.
-From PV Require Import Base.Num Base.RTac Model.Dynamics.
+From PV Require Import Base.Num Model.Dynamics.
 #[local] Remove Hints NumQ NumZ : typeclass_instances.
 
 (* ================================================================== 1. the time counter *)
@@ -89,19 +89,22 @@ Proof.
   cbn [ltv_run map run_time]. destruct o as [u|u|v|v|[v|]]; cbn; try apply IH.
 Qed.
 Context {TF : Trans F}.
-Lemma nls_step_time fs gs (st : nst) o :
-  n_t (nls_step' fs gs st o) = step_time' KNLS (n_t st) (nop_erase o).
+Lemma nls_step_time old fs gs (st : nst) o :
+  n_t (nls_step'_gen old fs gs st o) = step_time' KNLS (n_t st) (nop_erase o).
 Proof.
-  unfold nls_step', step_time'. destruct o as [x u|x u t|v|v|ox ou ot|]; cbn; try reflexivity.
+  unfold nls_step'_gen, step_time'. destruct o as [x u|x u t|v|v|ox ou ot|]; cbn; try reflexivity.
   - destruct ox, ou, (n_last st) as [[lx lu]|]; cbn; reflexivity.
   - destruct (n_ref st); reflexivity.
 Qed.
-Lemma nls_run_time fs gs : forall ops (st : nst),
-  n_t (nls_run fs gs st ops) = run_time KNLS (n_t st) (map nop_erase ops).
+Lemma nls_run_time_gen old fs gs : forall ops (st : nst),
+  n_t (nls_run_gen old fs gs st ops) = run_time KNLS (n_t st) (map nop_erase ops).
 Proof.
   induction ops as [|o ops IH]; intros st; [reflexivity|].
-  cbn [nls_run map run_time]. rewrite IH, nls_step_time. reflexivity.
+  cbn [nls_run_gen map run_time]. rewrite IH, nls_step_time. reflexivity.
 Qed.
+Lemma nls_run_time fs gs : forall ops (st : nst),
+  n_t (nls_run fs gs st ops) = run_time KNLS (n_t st) (map nop_erase ops).
+Proof. exact (nls_run_time_gen false fs gs). Qed.
 End Erase.
 Close Scope Z_scope.
 
@@ -683,102 +686,100 @@ Qed.
 Definition no_setref (ops : list (nop (F:=R))) : Prop :=
   forall o, In o ops -> match o with NSetRef _ _ _ => False | _ => True end.
 
-Lemma nls_step_keeps_ref fs gs (st : nst (F:=R)) o :
-  match o with NSetRef _ _ _ => False | _ => True end -> n_ref (nls_step' fs gs st o) = n_ref st.
+Lemma nls_step_keeps_ref old fs gs (st : nst (F:=R)) o :
+  match o with NSetRef _ _ _ => False | _ => True end -> n_ref (nls_step'_gen old fs gs st o) = n_ref st.
 Proof.
-  unfold nls_step'. destruct o as [x u|x u t|v|v|ox ou ot|]; cbn; try reflexivity; [tauto|].
+  unfold nls_step'_gen. destruct o as [x u|x u t|v|v|ox ou ot|]; cbn; try reflexivity; [tauto|].
   intros _. destruct (n_ref st) eqn:E; cbn; rewrite ?E; reflexivity.
 Qed.
-Lemma nls_run_keeps_ref fs gs : forall ops (st : nst (F:=R)),
-  no_setref ops -> n_ref (nls_run fs gs st ops) = n_ref st.
+Lemma nls_run_keeps_ref old fs gs : forall ops (st : nst (F:=R)),
+  no_setref ops -> n_ref (nls_run_gen old fs gs st ops) = n_ref st.
 Proof.
   induction ops as [|o ops IH]; intros st H; [reflexivity|].
-  cbn [nls_run]. rewrite IH by (intros o' Ho'; apply H; now right).
+  cbn [nls_run_gen]. rewrite IH by (intros o' Ho'; apply H; now right).
   apply nls_step_keeps_ref. apply H. now left.
 Qed.
 
 (* which state / input set_refpoint takes: the given one, else the one of the most recent forward *)
 Definition ref_arg (o : option (list R)) (last : option (list R)) : option (list R) :=
   match o with Some v => Some v | None => last end.
+(* which reference time: the given one, else the time at that moment *)
+Definition ref_time (st : nst (F:=R)) (ot : option R) : R :=
+  match ot with Some v => v | None => IZR (n_t st) end.
 
-(* set_refpoint(x, u, t) with an explicit t: whatever happens afterwards (calls, resets, time
-   assignments, direct calls, reads), A, B, C, D, c1, c2 read as the linearisation at (x, u, t) *)
-Lemma nls_read_fixed fs gs (st : nst (F:=R)) ox ou x u tr ops :
+(* set_refpoint(x, u, t), t given or not: whatever happens afterwards (calls, resets, time
+   assignments, direct calls, reads), A, B, C, D, c1, c2 read as the linearisation at
+   (x, u, t or the time at which set_refpoint ran) *)
+Lemma nls_read_fixed fs gs (st : nst (F:=R)) ox ou ot x u ops :
   ref_arg ox (option_map fst (n_last st)) = Some x ->
   ref_arg ou (option_map snd (n_last st)) = Some u ->
   no_setref ops ->
-  let st1 := nls_step' fs gs st (NSetRef ox ou (Some tr)) in
+  let st1 := nls_step' fs gs st (NSetRef ox ou ot) in
   let st2 := nls_run fs gs st1 ops in
-  nls_step fs gs st2 NRead = Some (st2, nls_lin_l fs gs x u tr).
+  nls_step fs gs st2 NRead = Some (st2, nls_lin_l fs gs x u (ref_time st ot)).
 Proof.
-  intros Hx Hu Hops st1 st2.
+  intros Hx Hu Hops st1 st2. set (tr := ref_time st ot).
   assert (R1 : n_ref st1 = Some {| r_x := x; r_u := u; r_t := TFixed tr;
                                    r_f := evals fs x u tr; r_g := evals gs x u tr |}).
-  { subst st1. unfold nls_step', nls_step. unfold ref_arg in Hx, Hu.
-    destruct ox as [x0|]; destruct ou as [u0|]; cbn in Hx, Hu |- *;
+  { subst st1 tr. unfold nls_step', nls_step'_gen, nls_step_gen, ref_time. unfold ref_arg in Hx, Hu.
+    destruct ot as [v|]; destruct ox as [x0|]; destruct ou as [u0|]; cbn in Hx, Hu |- *;
       try rewrite Hx; try rewrite Hu; try (injection Hx as ->); try (injection Hu as ->); reflexivity. }
   assert (R2 : n_ref st2 = n_ref st1) by (subst st2; now apply nls_run_keeps_ref).
-  unfold nls_step. rewrite R2, R1. reflexivity.
+  unfold nls_step, nls_step_gen. rewrite R2, R1. reflexivity.
 Qed.
 
-(* set_refpoint(x, u) with the default t=None, AS CODED: the reference time is the live `_t`
-   buffer; later reads use the time at the moment of reading for the Jacobians, but the values
+(* ---- history: the machine before 6b6eb73.  set_refpoint(x, u) with t=None stored the live `_t`
+   buffer: later reads used the time at the moment of reading for the Jacobians, but the values
    f(x,u,.), g(x,u,.) stored when set_refpoint ran *)
-Lemma nls_read_alias fs gs (st : nst (F:=R)) ox ou x u ops :
+Lemma nls_read_alias_old fs gs (st : nst (F:=R)) ox ou x u ops :
   ref_arg ox (option_map fst (n_last st)) = Some x ->
   ref_arg ou (option_map snd (n_last st)) = Some u ->
   no_setref ops ->
-  let st1 := nls_step' fs gs st (NSetRef ox ou None) in
-  let st2 := nls_run fs gs st1 ops in
+  let st1 := nls_step'_old fs gs st (NSetRef ox ou None) in
+  let st2 := nls_run_old fs gs st1 ops in
   let t0 := IZR (n_t st) in
   let tnow := IZR (run_time KNLS (n_t st) (map nop_erase ops)) in
-  nls_step fs gs st2 NRead = Some (st2, lin_read fs gs x u tnow (evals fs x u t0) (evals gs x u t0)).
+  nls_step_old fs gs st2 NRead = Some (st2, lin_read fs gs x u tnow (evals fs x u t0) (evals gs x u t0)).
 Proof.
   intros Hx Hu Hops st1 st2 t0 tnow.
   assert (R1 : n_ref st1 = Some {| r_x := x; r_u := u; r_t := TAlias;
                                    r_f := evals fs x u t0; r_g := evals gs x u t0 |} /\ n_t st1 = n_t st).
-  { subst st1. unfold nls_step', nls_step. unfold ref_arg in Hx, Hu.
+  { subst st1. unfold nls_step'_old, nls_step'_gen, nls_step_gen. unfold ref_arg in Hx, Hu.
     destruct ox as [x0|]; destruct ou as [u0|]; cbn in Hx, Hu |- *;
       try rewrite Hx; try rewrite Hu; try (injection Hx as ->); try (injection Hu as ->); split; reflexivity. }
   destruct R1 as [R1 T1].
   assert (R2 : n_ref st2 = n_ref st1) by (subst st2; now apply nls_run_keeps_ref).
   assert (T2 : n_t st2 = run_time KNLS (n_t st) (map nop_erase ops)).
-  { subst st2. rewrite nls_run_time. now rewrite T1. }
-  unfold nls_step. rewrite R2, R1. cbn [r_x r_u r_t r_f r_g tval]. rewrite T2. reflexivity.
+  { subst st2. unfold nls_run_old. rewrite nls_run_time_gen. now rewrite T1. }
+  unfold nls_step_old, nls_step_gen. rewrite R2, R1. cbn [r_x r_u r_t r_f r_g tval]. rewrite T2. reflexivity.
 Qed.
-(* ... so it is the linearisation at the reference point as long as the time has not moved *)
-Lemma nls_read_alias_same_time fs gs (st : nst (F:=R)) ox ou x u ops :
-  ref_arg ox (option_map fst (n_last st)) = Some x ->
-  ref_arg ou (option_map snd (n_last st)) = Some u ->
-  no_setref ops -> run_time KNLS (n_t st) (map nop_erase ops) = n_t st ->
-  let st2 := nls_run fs gs (nls_step' fs gs st (NSetRef ox ou None)) ops in
-  nls_step fs gs st2 NRead = Some (st2, nls_lin_l fs gs x u (IZR (n_t st))).
-Proof.
-  intros Hx Hu Hops Ht st2. subst st2. rewrite (nls_read_alias fs gs st ox ou x u ops Hx Hu Hops).
-  cbv zeta. rewrite Ht. reflexivity.
-Qed.
-
-(* ... and NOT once a call has advanced the time: f(x, u, t) = t * x0, set_refpoint() at time 1,
-   one more call, then A reads 2 although the Jacobian at the reference point is 1 *)
-Lemma nls_default_t_refuted :
+(* ... which was NOT the linearisation at the reference point once a call had advanced the time:
+   f(x, u, t) = t * x0, set_refpoint() at time 1, one more call, then A read 2 although the
+   Jacobian at the reference point is 1 *)
+Lemma nls_default_t_old_refuted :
   exists (fs gs : list (fexpr (F:=R))) (st : nst (F:=R)) (x u : list R) (ops : list (nop (F:=R))),
     no_setref ops /\
-    let st2 := nls_run fs gs (nls_step' fs gs st (NSetRef (Some x) (Some u) None)) ops in
-    exists out, nls_step fs gs st2 NRead = Some (st2, out) /\
+    let st2 := nls_run_old fs gs (nls_step'_old fs gs st (NSetRef (Some x) (Some u) None)) ops in
+    exists out, nls_step_old fs gs st2 NRead = Some (st2, out) /\
                 out <> nls_lin_l fs gs x u (IZR (n_t st)).
 Proof.
   exists [EMul ET (EX 0)], [EX 0], (nst_init 1), [1], [0], [NCall [1] [0]]. split.
   - intros o [<-|[]]. exact I.
   - cbv zeta. eexists. split; [reflexivity|].
-    cbv [nls_lin_l lin_read nls_run nls_step' nls_step nst_init n_ref n_t n_last r_x r_u r_t r_f r_g tval
+    cbv [nls_lin_l lin_read nls_run_old nls_run_gen nls_step'_old nls_step'_gen nls_step_gen nst_init
+         n_ref n_t n_last r_x r_u r_t r_f r_g tval
          nls_A nls_B jac grad xvars uvars length seq map concat app eval deriv Nat.eqb evals ofZ NumR
          Z.add Pos.add Pos.succ].
     intros H. injection H. intros. cbn in *. lra.
 Qed.
 
-(* LTV.set_refpoint() with the default t=None raises although it is documented to keep the time *)
-Lemma ltv_setref_default_raises t : step_time KLTV t (SetRef None) = None.
+(* history: LTV.set_refpoint() with the default t=None raised; now it keeps the time *)
+Lemma ltv_setref_default_old_raises t : step_time_old KLTV t (SetRef None) = None.
 Proof. reflexivity. Qed.
+Lemma ltv_setref_default_keeps_time t : step_time KLTV t (SetRef None) = Some t.
+Proof. reflexivity. Qed.
+Lemma step_time_total k t o : exists t', step_time k t o = Some t'.
+Proof. destruct o as [| |v|v|[v|]]; destruct k; cbn; eauto. Qed.
 
 (* the hypothesis of nls_second_order is satisfiable with an explicit constant: f = sin x0 *)
 Lemma second_order_example (x s : R) :
